@@ -638,6 +638,22 @@ Theorem C10_names_unique_step :
   run_op T tab_el tab_en check_fn LATEST root_attrs o w = Val (r, w') -> NamesUnique w'.
 Proof. exact names_step_all. Qed.
 
+(* ArxmlFile::set_filename (Files.f_set_filename; not in the alphabets op / op2): a rejected rename leaves the world as it
+   is; a successful one changes only the name in the record of that file and keeps FilesOwned and NamesUnique *)
+Theorem C10_set_filename_rejected :
+  forall (f : N) (name : list N) (w : world) (e : err) (w' : world),
+  f_set_filename f name w = Val (ER e, w') -> w' = w /\ e = DuplicateFilenameError.
+Proof. exact set_filename_rejected. Qed.
+
+Theorem C10_set_filename_ok :
+  forall (f : N) (name : list N) (w : world) (u : unit) (w' : world),
+  FilesOwned w -> NamesUnique w -> f_set_filename f name w = Val (OK u, w') ->
+  (exists fl, nth_opt (w_files w) (N.to_nat f) = Some fl /\
+     w' = mkWorld (w_nodes w) (w_next w)
+            (list_set (w_files w) (N.to_nat f) (mkFile (f_model fl) name (f_version fl) (f_standalone fl))) (w_models w)) /\
+  FilesOwned w' /\ NamesUnique w'.
+Proof. exact set_filename_ok. Qed.
+
 Theorem C10_history2_owned_full :
   forall (T : tables) (tab_el tab_at tab_en : nametab) (check_fn : N -> list N -> res bool)
          (float_parse : list N -> option N) (float_fmt : N -> list N)
